@@ -113,6 +113,32 @@ def scip(c, l, u, A, lo, hi, integrality, time_limit=60.):
     return None
 
 
+def lp_row_marginals(op, time_limit=30.):
+    """Marginals of the rows of an LP from an independent solver (scipy linprog / HiGHS), or None. Used to GUIDE sampling only
+    (degenerate problems have several valid dual solutions); no verdict rests on them."""
+    from scipy.optimize import linprog
+    A, lo, hi = rows(op)
+    if A.shape[0] == 0:
+        return None
+    eq = np.where(np.isfinite(lo) & np.isfinite(hi) & (lo == hi))[0]
+    ub = np.where(np.isfinite(hi) & ~((lo == hi) & np.isfinite(lo)))[0]
+    lb = np.where(np.isfinite(lo) & ~((lo == hi) & np.isfinite(hi)))[0]
+    A_ub = sp.vstack([A[ub], -A[lb]]).tocsr() if len(ub) + len(lb) else None
+    b_ub = np.concatenate([hi[ub], -lo[lb]]) if len(ub) + len(lb) else None
+    l = np.asarray(op.l, float); u = np.asarray(op.u, float)
+    try:
+        r = linprog(np.asarray(op.c, float), A_ub=A_ub, b_ub=b_ub, A_eq=A[eq] if len(eq) else None, b_eq=lo[eq] if len(eq) else None,
+                    bounds=np.column_stack([l, u]), method='highs', options={'time_limit': time_limit, 'presolve': False})
+    except Exception:
+        return None
+    if r.status != 0:
+        return None
+    m = np.full(A.shape[0], np.nan)
+    if len(eq):
+        m[eq] = r.eqlin.marginals
+    return m
+
+
 def solve_op(op, relax=False, time_limit=60., extra_l=None, extra_u=None):
     A, lo, hi = rows(op)
     n = len(op.c)
